@@ -4,3 +4,4 @@
 #![allow(dead_code, unused_variables, clippy::all)]
 
 pub mod c38;
+pub mod reach;
